@@ -34,7 +34,7 @@ PATH_VOCAB = ["petId", "owner-id", "item_id", "Key", "sub2", "zone"]
 QUERY_VOCAB = ["q", "page", "pageSize", "sort-by", "filter.name", "include_deleted", "fromDate", "ids", "mode", "filter[tag]", "page size"]
 HEADER_VOCAB = ["X-Trace-Id", "x-request-key", "Api-Version", "XToken", "x_flag"]
 COOKIE_VOCAB = ["session", "csrf-token", "pref_lang", "trackId"]
-STR_ENUM_VALUES = ["red", "Green", "dark blue", "light-grey", "x1", "1st", "teal", "MAUVE"]
+STR_ENUM_VALUES = ["red", "Green", "dark blue", "light-grey", "x1", "1st", "teal", "MAUVE", "°C", "naïve"]
 METHODS = ["get", "put", "post", "delete", "options", "head", "patch", "trace"]
 STATUSES = [200, 201, 202, 204, 400, 401, 404, 409, 422, 500, 503]
 SCALARS = ["string", "integer", "number", "boolean", "date", "date-time", "uuid"]
@@ -537,6 +537,10 @@ class DocGen:
             c = r.random()
             if c < 0.15 and self.on("enums"):
                 e = self.enum_schema(allow_null=False)
+                if e["type"] == "string":  # header and cookie values are ASCII on the wire (httpx refuses anything else)
+                    e["enum"] = [v for v in e["enum"] if v.isascii()] or ["red", "teal"]
+                    if "default" in e and e["default"] not in e["enum"]:
+                        e["default"] = e["enum"][0]
                 return e
             return self.scalar(["string", "string", "integer", "number", "boolean"])
         if loc == "cookie":
@@ -545,6 +549,9 @@ class DocGen:
                 e = self.enum_schema(allow_null=False)
                 if e["type"] != "string":
                     e = {"type": "string", "enum": ["red", "teal"]}
+                e["enum"] = [v for v in e["enum"] if v.isascii()] or ["red", "teal"]
+                if "default" in e and e["default"] not in e["enum"]:
+                    e["default"] = e["enum"][0]
                 return e
             return self.scalar(["string"])
         raise ValueError(loc)
@@ -611,8 +618,8 @@ class DocGen:
         if self.on("multi_body") and len(kinds) > 1 and r.random() < 0.4:
             n = r.randint(2, min(3, len(kinds)))
         chosen = r.sample(kinds, n)
-        if "json" in chosen and "plusjson" in chosen:
-            chosen.remove("plusjson")
+        if "json" in chosen and "plusjson" in chosen and r.random() < 0.5:
+            chosen.remove("plusjson")  # (otherwise: two JSON-family media types with different models, told apart by the body's class)
         content: dict[str, dict] = {}
         used_types: set[str] = set()
         ov = getattr(self, "ct_overrides", {}) or {}
